@@ -1,19 +1,65 @@
-"""C06 xtl::any: history explorer (E2) over 3 any objects x 8 payload types x every throw point."""
+"""C06 xtl::any: history explorer (E2) over 3 any objects x 11 payload types x every throw point; spelling-sensitive payload class; cast-target type alphabet."""
 import os
+import re
+import subprocess
 import vlib
 
 LEVEL = "fault_enumeration"
 HERE = os.path.dirname(os.path.abspath(__file__))
 SRC = os.path.join(HERE, "harness.cpp")
 NSRC = os.path.join(HERE, "nested.cpp")
+CSRC = os.path.join(HERE, "casts.cpp")
+N_FORMS = 13             # casts.cpp: F_COUNT
+N_PROBED_FORMS = 10      # casts.cpp: the pointer and reference forms (F_P .. F_RCR); the by-value forms cannot return an array / function
 
 
 def build():
     return vlib.compile_cxx(SRC, "c06", std="c++17", opt="-O1", san="asan-only", extra_srcs=[os.path.join(HERE, "other_tu.cpp")], flags=["-I" + HERE])
 
 
+def build_spell():
+    # same harness, payload table = the spelling-sensitive type class (c06_spell.hpp)
+    return vlib.compile_cxx(SRC, "c06s", std="c++17", opt="-O1", san="asan-only", extra_srcs=[os.path.join(HERE, "other_tu.cpp")], flags=["-I" + HERE], defines=["C06_SPELL"])
+
+
 def build_nested():
     return vlib.compile_cxx(NSRC, "c06n", std="c++17", opt="-O1", san="asan-only")
+
+
+def cast_table(std, deep):
+    """The target table of casts.cpp as the preprocessor sees it for this -std / tier: (number of targets, ids of array / function types)."""
+    cmd = ["g++", "-std=" + std, "-E", "-P", "-DC06_LIST"] + (["-DC06_DEEP"] if deep else []) + [CSRC]
+    r = subprocess.run(cmd, stdout=subprocess.PIPE, stderr=subprocess.PIPE, text=True)
+    if r.returncode != 0:
+        raise vlib.HarnessError("casts.cpp LIST mode failed: " + r.stderr[-2000:])
+    exotic = [int(x) for x in re.findall(r"@@EXOTIC\s+(\d+)", r.stdout)]
+    n = int(re.search(r"@@NTARGETS\s+(\d+)", r.stdout).group(1))
+    return n, exotic
+
+
+def build_casts(std, deep):
+    """Capability probes (one syntax-only compile per array / function target type, per form only if the group fails), then the real build."""
+    n, exotic = cast_table(std, deep)
+    base_defs = ["C06_DEEP"] if deep else []
+
+    def probe(defs):
+        return vlib.compile_cxx(CSRC, "c06probe", std=std, opt="-O0", san="none", defines=base_defs + defs, syntax_only=True, expect_fail=True) is not None
+
+    def caps_of(tid):
+        if probe(["C06_PROBE_TARGET=%d" % tid]):
+            return (1 << N_PROBED_FORMS) - 1
+        m = 0
+        for f in range(N_PROBED_FORMS):
+            if probe(["C06_PROBE_TARGET=%d" % tid, "C06_PROBE_FORM=%d" % f]):
+                m |= 1 << f
+        return m
+
+    masks = vlib.parallel([(lambda t=t: caps_of(t)) for t in exotic])
+    caps = [(1 << N_FORMS) - 1] * n
+    for t, m in zip(exotic, masks):
+        caps[t] = m
+    b = vlib.compile_cxx(CSRC, "c06cast", std=std, opt="-O1", san="asan-only", defines=base_defs + ["C06_CAPS=" + ",".join(str(c) for c in caps)])
+    return b, len(exotic), sum(1 for m in masks if m != (1 << N_PROBED_FORMS) - 1)
 
 
 def plan(tier):
